@@ -61,8 +61,51 @@ def run(cmd, cwd=None, timeout=None, input=None, env=None):
 
 # ------------------------------------------------------------------ Coq side
 def translate():
-    rc, out = run([sys.executable, os.path.join(VERIF, "tools", "translate.py")], cwd=VERIF, timeout=120)
-    return rc == 0, out.strip()
+    """regenerate coq/gen/*.v from /repo.  Returns (ok, text, failed): `failed` lists the generated files that could be
+    produced neither from the source text (regular expressions) nor — for the error table, the ESR classes and the
+    response separators — from the exhaustive behavioural dump of the compiled crate (harness kind `dumptab`)."""
+    tr = os.path.join(VERIF, "tools", "translate.py")
+    rc, out = run([sys.executable, tr], cwd=VERIF, timeout=120)
+    text = out.strip()
+    if rc == 0:
+        return True, text, []
+    failed = re.findall(r"translate: FAILED (Gen_\w+\.v)", out)
+    if not failed:
+        return False, text, ["Gen_Errors.v", "Gen_Esr.v", "Gen_Consts.v", "Gen_Suffix.v"]
+    fb = [f for f in failed if f in ("Gen_Errors.v", "Gen_Esr.v", "Gen_Consts.v")]
+    still = [f for f in failed if f not in fb]
+    if fb:
+        ok, bout = build_harness("debug")
+        res = run_harness(["dumptab"], "debug") if ok else None
+        if res and res[0] and res[0].startswith("E "):
+            rc2, out2 = run([sys.executable, tr, "--from-dump", ",".join(fb)], cwd=VERIF, timeout=120, input=res[0])
+            text += "\n" + out2.strip()
+            if rc2 != 0: still += fb
+        else:
+            text += "\ntranslate: behavioural fallback unavailable (harness does not build / dump failed)"
+            still += fb
+    return (not still), text, still
+
+
+def gen_deps(pid, targets):
+    """the generated files (coq/gen/Gen_*.v) the property's targets transitively depend on"""
+    req = {}
+    for rel in coq_project_files():
+        mod = os.path.splitext(os.path.basename(rel))[0] if not rel.startswith(("Properties", "Pins", "NonVacuous")) else rel[:-2].replace("/", ".")
+        txt = strip_coq_comments(open(os.path.join(COQ, rel)).read())
+        deps = set()
+        for m in re.finditer(r"From\s+VF(?:\.(\w+))?\s+Require\s+(?:Import\s+|Export\s+)?([^.]*)\.", txt):
+            for name in m.group(2).split():
+                deps.add((m.group(1) + "." if m.group(1) else "") + name)
+        req[mod] = deps
+    todo = [t[:-3].replace("/", ".") for t in targets] + ["Properties." + pid, "Pins." + pid]
+    seen = set()
+    while todo:
+        x = todo.pop()
+        if x in seen: continue
+        seen.add(x)
+        todo += list(req.get(x, ()))
+    return sorted(x + ".v" for x in seen if x.startswith("Gen_"))
 
 
 def coq_project_files():
